@@ -236,6 +236,17 @@ func init() {
 		R.watched[args[0].(iface).v.(*value)] = toGoString(args[1])
 		return nil
 	}
+	// verifBlockUntil(cond): park the calling thread until the (side-effect free) closure returns true.
+	verifIntrinsics["verifBlockUntil"] = func(fr *frame, args []value) value {
+		f := args[0]
+		schedPoint("verifBlockUntil")
+		blockUntil(func() bool {
+			R.noSched++
+			defer func() { R.noSched-- }()
+			return truth(call(nil, token.NoPos, f, nil), "verifBlockUntil")
+		}, "verifBlockUntil in "+shortName(callerName(fr)))
+		return nil
+	}
 	verifIntrinsics["verifLog"] = func(fr *frame, args []value) value {
 		R.ghost = append(R.ghost, toGoString(args[0]))
 		return nil
